@@ -10,6 +10,16 @@ pub struct Minimised {
     pub executions: u64,
 }
 
+/// One execution on a thread of its own: whatever the code under test left behind in thread-locals
+/// during earlier executions of this process cannot decide the verdict, so a trace that fails here
+/// fails in a fresh process too (which is what a replay is).
+pub fn isolated(execute: fn(&Trace, &mut Stats, bool) -> Outcome, t: &Trace, st: &mut Stats, record: bool) -> Outcome {
+    match std::thread::scope(|s| s.spawn(|| execute(t, st, record)).join()) {
+        Ok(o) => o,
+        Err(p) => std::panic::resume_unwind(p),
+    }
+}
+
 pub fn minimise(
     start: Trace,
     class: &str,
@@ -29,7 +39,7 @@ pub fn minimise(
             *execs = cap.max(*execs);
             return false;
         }
-        let o = execute(t, &mut scratch, false);
+        let o = isolated(execute, t, &mut scratch, false);
         o.violation.as_ref().map(|v| v.class == class).unwrap_or(false)
     };
 
@@ -208,6 +218,6 @@ pub fn minimise(
     }
 
     let mut s = Stats::default();
-    let outcome = execute(&best, &mut s, true);
+    let outcome = isolated(execute, &best, &mut s, true);
     Minimised { trace: best, outcome, executions: execs }
 }
